@@ -21,6 +21,9 @@ import CueVerif.Proofs.NumLit
 import CueVerif.Proofs.Ident
 import CueVerif.Proofs.TokenFile
 import CueVerif.Proofs.ScanComma
+import CueVerif.Proofs.ScanStream
+import CueVerif.Proofs.TokenFileContent
+import CueVerif.Proofs.ScanPlain
 namespace CueVerif.C09
 open CueVerif CueVerif.Quote
 
@@ -332,5 +335,102 @@ theorem C09_comma_rule_code (M : Scan.Mode) (U : Scan.Uni) (n fuel : Nat) (st : 
     (h : Scan.scanTok M U n fuel st = some (t, st')) (h0 : t.kind ≠ .ILLEGAL) :
     st'.insertEOL = Scan.insertsComma t.kind :=
   Scan.scanTok_comma M U n hM fuel st t st' h h0
+
+/-- Stream-level totality: for EVERY source text, mode and Unicode classification the client
+loop `scan` (fuel 3·len+4 for the loop, 2·|remaining|+3 for each `Scan` call) never emits the
+FUEL pseudo token — neither fuel is ever exhausted, `scan` is a total function on byte strings
+whose output consists of real tokens (and, after a `ResumeInterpolation` on an empty quote
+stack, the PANIC marker). -/
+theorem C09_scan_stream_total (M : Scan.Mode) (U : Scan.Uni) (src : Scan.Str) :
+    ∀ t ∈ (Scan.scan M U src).1, t.kind ≠ .FUEL :=
+  Scan.scan_no_fuel M U src
+
+/-- … and every `Scan` call only returns real tokens (never FUEL or PANIC). -/
+theorem C09_scan_real_tokens (M : Scan.Mode) (U : Scan.Uni) (n fuel : Nat) (st : Scan.St) (t : Scan.Tok)
+    (st' : Scan.St) (h : Scan.scanTok M U n fuel st = some (t, st')) : Scan.isMarker t.kind = false :=
+  Scan.scanTok_real M U n fuel st t st' h
+
+/-! ### the scanner's line table is the content's (extension round, continued) -/
+
+/-- The line table the scanner builds for ANY text `c` (`NewFile(len c)` + the `AddLine` calls
+of `next()`: one per line feed, also the ignored one at end of input) is the content-based
+table: it is well-formed (strictly increasing, starting at 0) and its entries are EXACTLY
+offset 0 and the offsets just after a line feed byte that lie inside the text.  A strictly
+increasing list is determined by its members, so this fixes the table. -/
+theorem C09_scanner_linetable_is_content (c : List Nat) :
+    TokenFile.WF (TokenFile.scannedFile c) ∧
+    ∀ x, x ∈ (TokenFile.scannedFile c).lines ↔ TokenFile.IsLineStart c x :=
+  ⟨TokenFile.scannedFile_wf c, TokenFile.mem_scannedFile_lines c⟩
+
+/-- `Position` on that table, characterised by the CONTENT alone: for every offset (clamped)
+the reported line starts at a line start of the text (offset 0 or just after a line feed; a
+line feed in the last byte does not start a line), no line start of the text lies between it
+and the offset, and the column is the distance from it plus one.  This is the deciding
+argument for "line/column agree with the text"; the harness predicate
+`position-differs-from-content` remains as the tie to the implementation. -/
+theorem C09_position_from_content (c : List Nat) (o rel : Int) (hr0 : 0 ≤ rel) (hr1 : rel < 64) :
+    ∃ p, TokenFile.position (TokenFile.scannedFile c) (TokenFile.pos (TokenFile.scannedFile c) o rel) = .ok p ∧
+      TokenFile.GoodPosition (TokenFile.scannedFile c) (TokenFile.fixOffset (TokenFile.scannedFile c) o) p ∧
+      TokenFile.IsLineStart c (p.offset - (p.column - 1)) ∧
+      (∀ x, TokenFile.IsLineStart c x → x ≤ p.offset → x ≤ p.offset - (p.column - 1)) :=
+  TokenFile.position_content c o rel hr0 hr1
+
+-- non-vacuity: "a\n\r\nb\n": line starts 0, 2, 4 (the final line feed starts no line); offset 5
+-- (the 'b' is at 4) is line 3 column 2
+example : (TokenFile.scannedFile [97, 10, 13, 10, 98, 10]).lines = [0, 2, 4] ∧
+    TokenFile.position (TokenFile.scannedFile [97, 10, 13, 10, 98, 10])
+      (TokenFile.pos (TokenFile.scannedFile [97, 10, 13, 10, 98, 10]) 5 0) = .ok ⟨5, 3, 2⟩ := by decide
+
+/-- For a non-empty text `SetLinesForContent` (used by the JSON/YAML/TOML/… decoders) builds
+the same table as the scanner. -/
+theorem C09_setLinesForContent_is_scanner_table (f : TokenFile.File) (c : List Nat) (hc : c ≠ []) :
+    (TokenFile.setLinesForContent f c).lines = (TokenFile.scannedFile c).lines :=
+  TokenFile.setLinesForContent_eq_scanned f c hc
+
+/-! ### scanner vs `literal.Unquote` on single-line string literals (partial)
+
+The full agreement "the scanner reads `lit` as one error-free STRING token ⇔ `Unquote lit`
+succeeds" over ALL single-line literals is still OPEN as a theorem (it is known to be false
+on lone surrogate escapes and a raw BOM — known findings — and is enforced on generated
+literals by the harness predicate `string-spelling-disagree`).  Proved is the agreement on
+PLAIN literals: a quote character (`"` or `'`), a body of printable ASCII bytes other than that
+quote character and backslash, and the closing quote — and on their unterminated variants. -/
+
+/-- OPEN: the full statement (modulo the two known classes it would need to exclude). -/
+def C09_string_agree_stmt : Prop :=   -- OPEN
+  ∀ (M : Scan.Mode) (U : Scan.Uni) (lit : Scan.Str) (fuel : Nat), lit.length * 2 + 2 < fuel →
+    ((∃ st', Scan.scanTok M U lit.length fuel ⟨lit, false, []⟩ =
+        some (⟨.STRING, 0, lit.length, lit, false⟩, st') ∧ st'.cur = []) ↔
+      ∃ v, Quote.unquote lit = .ok v)
+
+/-- Both accept a plain literal: the scanner reads it as ONE error-free STRING token whose
+text is the whole input (then only the automatic comma and EOF follow), and `Unquote` returns
+exactly the body. -/
+theorem C09_string_agree_plain (M : Scan.Mode) (U : Scan.Uni) (f : Quote.Form)
+    (hf : f = Quote.stringForm ∨ f = Quote.bytesForm) (body : Scan.Str) (h : Scan.Plain f.quote body)
+    (fuel : Nat) :
+    Scan.scanTok M U (f.quote :: (body ++ [f.quote])).length (fuel + 1) ⟨f.quote :: (body ++ [f.quote]), false, []⟩ =
+      some (⟨.STRING, 0, (f.quote :: (body ++ [f.quote])).length, f.quote :: (body ++ [f.quote]), false⟩,
+            ⟨[], if M.dontInsertCommas then false else true, []⟩) ∧
+    Quote.unquote (f.quote :: (body ++ [f.quote])) = .ok body := by
+  have hq : f.quote = 34 ∨ f.quote = 39 := by
+    rcases hf with h | h <;> subst h
+    · exact Or.inl rfl
+    · exact Or.inr rfl
+  exact ⟨Scan.scanTok_plain M U f.quote hq body h fuel, Scan.unquote_plain f hf body h⟩
+
+-- non-vacuity: "a'b #" and 'x"y'
+example : Scan.Plain 34 [97, 39, 98, 32, 35] ∧ Scan.Plain 39 [120, 34, 121] := by
+  constructor <;> intro b hb <;> simp at hb <;> omega
+
+/-- Both reject an unterminated plain literal (non-empty body): the scanner's STRING token
+carries an error ("string literal not terminated"), `Unquote` returns "unmatched quote". -/
+theorem C09_string_agree_plain_unterminated (M : Scan.Mode) (U : Scan.Uni) (q : Nat)
+    (hq : q = 34 ∨ q = 39) (b : Nat) (rest : Scan.Str) (h : Scan.Plain q (b :: rest)) (fuel : Nat) :
+    (∃ t st', Scan.scanTok M U (q :: b :: rest).length (fuel + 1) ⟨q :: b :: rest, false, []⟩ = some (t, st') ∧
+      t.kind = .STRING ∧ t.err = true) ∧
+    Quote.unquote (q :: b :: rest) = .error .unmatchedQuote :=
+  ⟨Scan.scanTok_plain_open M U q hq b rest h fuel,
+   Scan.unquote_plain_open q hq (b :: rest) (by simp) h⟩
 
 end CueVerif.C09
